@@ -180,6 +180,9 @@ var glslKeywords = map[string]struct{}{
 	"atomicAdd":             {}, "atomicMin": {}, "atomicMax": {}, "atomicAnd": {}, "atomicOr": {}, "atomicXor": {},
 	"atomicExchange": {}, "atomicCompSwap": {},
 	"subpassLoad": {},
+
+	// Names of helper functions and variables the writer itself emits
+	"naga_modf": {}, "naga_frexp": {}, "_naga_div": {}, "_naga_mod": {}, "naga_vs_first_instance": {},
 }
 
 // isKeyword checks if a name is a GLSL keyword or reserved word.
